@@ -315,7 +315,7 @@ def raw_graphs(E, nsp, nb, nb_in=1, bad=False):
 def harnesses(tier):
     q = tier == "quick"
     T = 900 if q else 1200
-    k, w = (2, 3) if q else (3, 3)
+    k, w = (2, 3) if q else (2, 4)
     return [
         H("export", export, dict(k=k, w=w), FUNCS, covers=["exported"],
           stubs=STUBS, engine="SYM (z3 QF_NRA) + reference graph semantics",
